@@ -3,7 +3,18 @@
 use crate::monitor::{Cfg, Report};
 use serde_json::Value;
 
+pub mod c01;
+pub mod c02;
+pub mod c03;
+pub mod c04;
+pub mod c06;
+pub mod c07;
+pub mod c08;
 pub mod c10;
+pub mod c11;
+pub mod c12;
+pub mod c13;
+pub mod groupcorpus;
 pub mod c14;
 pub mod c18;
 pub mod c19;
@@ -11,7 +22,17 @@ pub mod c20;
 
 pub fn run(cfg: &Cfg) -> Option<Report> {
     match cfg.prop.as_str() {
+        "C01" => Some(c01::run(cfg)),
+        "C02" => Some(c02::run(cfg)),
+        "C03" => Some(c03::run(cfg)),
+        "C04" => Some(c04::run(cfg)),
+        "C06" => Some(c06::run(cfg)),
+        "C07" => Some(c07::run(cfg)),
+        "C08" => Some(c08::run(cfg)),
         "C10" => Some(c10::run(cfg)),
+        "C11" => Some(c11::run(cfg)),
+        "C12" => Some(c12::run(cfg)),
+        "C13" => Some(c13::run(cfg)),
         "C14" => Some(c14::run(cfg)),
         "C18" => Some(c18::run(cfg)),
         "C19" => Some(c19::run(cfg)),
@@ -27,7 +48,17 @@ pub fn replay(cfg: &Cfg, v: &Value, path: &str) -> i32 {
     let input = v.get("input").cloned().unwrap_or(Value::Null);
     let mut ctx = crate::monitor::Ctx::new();
     let handled = match prop {
+        "C01" => c01::replay(&mut ctx, &input),
+        "C02" => c02::replay(&mut ctx, &input),
+        "C03" => c03::replay(&mut ctx, &input),
+        "C04" => c04::replay(&mut ctx, &input),
+        "C06" => c06::replay(&mut ctx, &input),
+        "C07" => c07::replay(&mut ctx, &input),
+        "C08" => c08::replay(&mut ctx, &input),
         "C10" => c10::replay(&mut ctx, &input),
+        "C11" => c11::replay(&mut ctx, &input),
+        "C12" => c12::replay(&mut ctx, &input),
+        "C13" => c13::replay(&mut ctx, &input),
         "C14" => c14::replay(&mut ctx, &input),
         "C18" => c18::replay(&mut ctx, &input, cfg.lane == "release"),
         "C19" => c19::replay(&mut ctx, &input),
